@@ -114,9 +114,6 @@ func loadWorld(repoDir, harnessDir string) (*World, error) {
 		if err != nil {
 			return err
 		}
-		if strings.HasSuffix(file, "_native.go") {
-			return nil // native-only replay support
-		}
 		overlay[target] = b
 		w.harnessFiles[target] = p
 		return nil
@@ -193,7 +190,7 @@ func (w *World) newExec() (*Exec, error) {
 	}
 	e := &Exec{w: w, prog: w.prog, tt: newTermTable(), solver: s,
 		globals: map[*ssa.Global]*Obj{}, constCache: map[*ssa.Const]Value{}, fnMeta: map[*ssa.Function]*fnMeta{},
-		implCache: map[[2]types.Type]bool{}, methCache: map[methKey]*ssa.Function{}, journMap: map[*MapObj]bool{}}
+		implCache: map[[2]types.Type]bool{}, methCache: map[methKey]*ssa.Function{}, journMap: map[*MapObj]bool{}, nativesSeen: map[string]bool{}, bounds: map[string]int{}}
 	e.runInits()
 	return e, nil
 }
